@@ -120,7 +120,28 @@ func userFunctionCallRuleSSA(r *Run) {
 	// ---- R2: pairing on the value graph
 	isParams := func(v ssa.Value) bool {
 		x, ok := isFieldLoadOf(v, modPath, "userFunction", "Parameters")
-		return ok && x == fnP
+		return ok && crossReaches(x, fnP)
+	}
+	// parameter bindings that live in a single-use helper of the evaluator (a bind method of the function value)
+	seenFn := map[*ssa.Function]bool{fn: true}
+	work := []*ssa.Function{fn}
+	for i := 0; i < len(work) && i < 8; i++ {
+		for _, b := range work[i].Blocks {
+			for _, ins := range b.Instrs {
+				c, ok := ins.(*ssa.Call)
+				if !ok {
+					continue
+				}
+				if g := c.Call.StaticCallee(); g != nil && len(g.Blocks) > 0 && !seenFn[g] && m.inline(work[i], g) {
+					seenFn[g] = true
+					work = append(work, g)
+				}
+				if work[i] != fn && c.Call.IsInvoke() && c.Call.Method.Name() == "Set" && len(c.Call.Args) == 2 && !seenS[c] {
+					seenS[c] = true
+					setCalls = append(setCalls, c)
+				}
+			}
+		}
 	}
 	elemOf := func(v ssa.Value) (slice, idx ssa.Value, ok bool) {
 		u, isU := v.(*ssa.UnOp)
@@ -190,7 +211,7 @@ func userFunctionCallRuleSSA(r *Run) {
 			continue
 		}
 		vsl, j2, ok := elemOf(stripIface(s.Call.Args[1]))
-		if !ok || vals == nil || vsl != vals || j2 != j {
+		if !ok || vals == nil || !crossReaches(vsl, vals) || j2 != j {
 			continue
 		}
 		okBind = true
